@@ -129,3 +129,9 @@ func VerifUFramesConsts() [][2]any {
 		{"uframes_InvalidByteCount", int64(protocol.InvalidByteCount)},
 	}
 }
+
+// VerifUFramesDatagramIdx / VerifUFramesPlannedLeft: packer fields the uwire unit logs with
+// every packet (the datagram index MarshalInitialPacketPayload will use, the planned flight
+// payloads not yet sent).
+func (r *VerifRetx) VerifUFramesDatagramIdx() int { return r.p.initialDatagramIdx }
+func (r *VerifRetx) VerifUFramesPlannedLeft() int { return len(r.p.flightPayloads) }
